@@ -146,9 +146,31 @@ class E2Explorer:
                                 else:
                                     viols = []
                             else:
-                                res_sum["sched_errors"].append((devs, "violation not reproducible on re-execution: %s vs %s vs %s"
-                                                                % (sigs1[:2], (sigs2 or ["<divergence>"])[:2], (sigs3 or ["<divergence>"])[:2])))
-                                viols = []
+                                # three different observations of one schedule: events of processes that die (a killed tree, a
+                                # script that was signalled) can overtake each other under heavy machine load.  Up to four more
+                                # executions; an observation seen three times stands, anything else is a machinery error.
+                                from collections import Counter
+                                tally = Counter(json.dumps(x) for x in (sigs1, sigs2, sigs3) if x is not None)
+                                keep = {json.dumps(sigs1): None, json.dumps(sigs2) if sigs2 is not None else "": res2,
+                                        json.dumps(sigs3) if sigs3 is not None else "": res3}
+                                for _extra in range(4):
+                                    if tally and tally.most_common(1)[0][1] >= 3:
+                                        break
+                                    _, resn = _run(scn, devs, self.bindir, self.scratch, expect_of.get(devs))
+                                    if resn["verdict"] == "sched-error" or resn.get("divergence"):
+                                        continue
+                                    sn = sorted(json.dumps(s, sort_keys=True, default=str) for s, _ in oracle(scn, resn))
+                                    tally[json.dumps(sn)] += 1
+                                    keep[json.dumps(sn)] = resn
+                                if tally and tally.most_common(1)[0][1] >= 3:
+                                    win = tally.most_common(1)[0][0]
+                                    res_sum["unreproduced"] = res_sum.get("unreproduced", 0) + 1
+                                    viols = oracle(scn, keep[win]) if json.loads(win) and keep.get(win) is not None else \
+                                        (viols if win == json.dumps(sigs1) and json.loads(win) else [])
+                                else:
+                                    res_sum["sched_errors"].append((devs, "violation not reproducible on re-execution: %s vs %s vs %s"
+                                                                    % (sigs1[:2], (sigs2 or ["<divergence>"])[:2], (sigs3 or ["<divergence>"])[:2])))
+                                    viols = []
                     for sig, detail in viols:
                         res_sum["violations"].append((devs, sig, detail))
                     if b < bound:
